@@ -22,7 +22,9 @@ import (
 	"testing"
 	"time"
 
+	"github.com/tucats/ego/internal/defs"
 	"github.com/tucats/ego/internal/language/bytecode"
+	"github.com/tucats/ego/internal/language/data"
 	"github.com/tucats/ego/internal/language/symbols"
 	"github.com/tucats/ego/internal/router"
 )
@@ -46,7 +48,18 @@ func (c *c42Rec) req(session int) string {
 	return c.bySess[session]
 }
 
-func c42InstallRecorder(rec *c42Rec, pattern string) {
+// c42Endpoint: the route pattern a request's table belongs to (the Endpoint field of its request object)
+func c42Endpoint(t *symbols.SymbolTable) string {
+	if v, ok := t.Get(defs.RequestVariable); ok {
+		if s, ok := v.(*data.Struct); ok {
+			return data.String(s.GetAlways("Endpoint"))
+		}
+	}
+
+	return ""
+}
+
+func c42InstallRecorder(rec *c42Rec) {
 	VerifGate = func(point string, session int, table *symbols.SymbolTable) {
 		switch point {
 		case "acquire":
@@ -54,30 +67,31 @@ func c42InstallRecorder(rec *c42Rec, pattern string) {
 
 			rec.mu.Lock()
 			rec.bySess[session] = id
-			rec.events = append(rec.events, map[string]any{"ev": "Enter", "r": id})
+			rec.events = append(rec.events, map[string]any{"ev": "Enter", "r": id, "ep": c42Endpoint(table)})
 			rec.mu.Unlock()
 		case "finish":
-			rec.add(map[string]any{"ev": "Run", "r": c42ReqID(table)})
+			rec.add(map[string]any{"ev": "Run", "r": c42ReqID(table), "ep": c42Endpoint(table)})
 		}
 	}
 	// called with serviceCacheMutex held
 	VerifEvent = func(op string, session int, endpoint string, table *symbols.SymbolTable) {
 		switch op {
 		case "lookup":
-			rec.add(map[string]any{"ev": "Lookup", "r": rec.req(session)})
+			rec.add(map[string]any{"ev": "Lookup", "r": rec.req(session), "ep": endpoint})
 		case "reads":
-			rec.add(map[string]any{"ev": "ReadS", "r": rec.req(session), "had": table != nil})
+			rec.add(map[string]any{"ev": "ReadS", "r": rec.req(session), "ep": endpoint, "had": table != nil})
 		case "add":
-			rec.add(map[string]any{"ev": "Add", "r": rec.req(session)})
+			rec.add(map[string]any{"ev": "Add", "r": rec.req(session), "ep": endpoint})
 		case "errdel":
-			rec.add(map[string]any{"ev": "RunErr", "r": rec.req(session)})
+			rec.add(map[string]any{"ev": "RunErr", "r": rec.req(session), "ep": endpoint})
 		case "finished":
 			item, ok := ServiceCache[endpoint]
-			rec.add(map[string]any{"ev": "Finish", "r": rec.req(session), "saved": ok && item.s == table})
+			rec.add(map[string]any{"ev": "Finish", "r": rec.req(session), "ep": endpoint, "saved": ok && item.s == table})
 		case "flush":
-			rec.add(map[string]any{"ev": "Flush"})
+			rec.add(map[string]any{"ev": "Flush", "ep": ""}) // every endpoint
 		case "aged":
-			rec.add(map[string]any{"ev": "Aged", "ep": endpoint})
+			// the oldest entry was thrown out by addToCache of another endpoint: for that endpoint, a flush
+			rec.add(map[string]any{"ev": "Flush", "ep": endpoint, "aged": true})
 		}
 	}
 }
@@ -143,11 +157,25 @@ func TestVerifC42Concurrent(t *testing.T) {
 		}
 	}
 
-	for run := 1; run <= runs; run++ {
-		key := shapes[run%len(shapes)]
-		svc := c42Manifest[key]
-		n := nmax
+	blocks := 0
 
+	if len(bad) == 0 {
+		bad[2+rng.Intn(nmax-1)] = true
+	}
+
+	for run := 1; run <= runs; run++ {
+		keys := []string{shapes[run%len(shapes)]}
+		aging := run%4 == 3 && len(shapes) > 1
+
+		// an "aging" run: two services share a service cache of one entry, so compiling one of them
+		// throws the other out (addToCache), with requests for it still in flight
+		MaxCachedEntries = 20
+		if aging {
+			keys = append(keys, shapes[(run+1)%len(shapes)])
+			MaxCachedEntries = 1
+		}
+
+		n := nmax
 		if run%3 == 0 {
 			n = nmax/2 + 1
 		}
@@ -165,10 +193,9 @@ func TestVerifC42Concurrent(t *testing.T) {
 		}
 
 		rec := &c42Rec{bySess: map[int]string{}}
-		c42InstallRecorder(rec, svc.Pattern)
+		c42InstallRecorder(rec)
 
-		ids, bads := []any{}, []any{}
-		reqs := map[string]*httptest.ResponseRecorder{}
+		ids, bads := map[string][]any{}, map[string][]any{}
 
 		var wg sync.WaitGroup
 
@@ -183,10 +210,15 @@ func TestVerifC42Concurrent(t *testing.T) {
 
 		for i := 1; i <= n; i++ {
 			id := fmt.Sprintf("r%d", i)
-			ids = append(ids, id)
+			svc := c42Manifest[keys[i%len(keys)]]
+			ids[svc.Pattern] = append(ids[svc.Pattern], id)
+
+			if bads[svc.Pattern] == nil {
+				bads[svc.Pattern] = []any{}
+			}
 
 			if bad[i] {
-				bads = append(bads, id)
+				bads[svc.Pattern] = append(bads[svc.Pattern], id)
 			}
 
 			req, err := c42NewRequest(svc, id, bad[i])
@@ -195,14 +227,13 @@ func TestVerifC42Concurrent(t *testing.T) {
 			}
 
 			w := httptest.NewRecorder()
-			reqs[id] = w
 			delay := time.Duration(rng.Intn(400)) * time.Microsecond
 
 			serve := func() {
 				rt.ServeHTTP(w, req)
 
 				r := c42Response(w)
-				rec.add(map[string]any{"ev": "Resp", "r": id, "status": r["status"], "body": r["body"]})
+				rec.add(map[string]any{"ev": "Resp", "r": id, "ep": svc.Pattern, "status": r["status"], "body": r["body"]})
 			}
 
 			if warm && i == 1 {
@@ -238,18 +269,33 @@ func TestVerifC42Concurrent(t *testing.T) {
 		wg.Wait()
 
 		VerifGate, VerifEvent = nil, nil
+		MaxCachedEntries = 20
 
-		svcKeys := []any{}
-		for _, k := range splitKey(key) {
-			svcKeys = append(svcKeys, k)
-		}
+		// one block of the log per endpoint: its own requests, its own cache entry
+		for _, key := range keys {
+			svc := c42Manifest[key]
+			blocks++
 
-		tw.Emit(map[string]any{"run": run, "ev": "Reset", "svc": svcKeys, "reqs": ids, "bad": bads,
-			"gomaxprocs": procs[run%len(procs)], "flushes": flushes})
+			svcKeys := []any{}
+			for _, k := range splitKey(key) {
+				svcKeys = append(svcKeys, k)
+			}
 
-		for _, e := range rec.events {
-			e["run"] = run
-			tw.Emit(e)
+			tw.Emit(map[string]any{"run": blocks, "ev": "Reset", "svc": svcKeys, "reqs": ids[svc.Pattern], "bad": bads[svc.Pattern],
+				"batch": run, "gomaxprocs": procs[run%len(procs)], "flushes": flushes, "aging": aging})
+
+			for _, e := range rec.events {
+				if ep := fmt.Sprint(e["ep"]); ep == svc.Pattern || ep == "" {
+					o := map[string]any{"run": blocks}
+					for k, v := range e {
+						if k != "ep" {
+							o[k] = v
+						}
+					}
+
+					tw.Emit(o)
+				}
+			}
 		}
 	}
 
